@@ -27,43 +27,72 @@ Proof.
   unfold zlen. rewrite Nat2Z.id, set_nth_app. reflexivity.
 Qed.
 
-(* painting n equal values over any n cells of a row segment (the run token) *)
-Theorem put_run8_paints n : forall a seg b x y w width pw v,
-  length seg = n -> zlen a = y * width + x + pw -> x + Z.of_nat n <= w ->
-  put_run8 n (a ++ seg ++ b) x y w width pw v = Ok (a ++ repeat v n ++ b, x + Z.of_nat n).
+(* the part of a piece of a stored row, starting at column x, that lies inside the image (columns < iw): the stored
+   row of an image of odd width ends with a pad byte, which is consumed but not painted *)
+Definition vis (iw x : Z) (l : bytes) : bytes := firstn (Z.to_nat (iw - x)) l.
+Lemma vis_cons_in iw x c l : x < iw -> vis iw x (c :: l) = c :: vis iw (x + 1) l.
+Proof. intros H. unfold vis. replace (Z.to_nat (iw - x)) with (S (Z.to_nat (iw - (x + 1)))) by lia. reflexivity. Qed.
+Lemma vis_out iw x l : iw <= x -> vis iw x l = [].
+Proof. intros H. unfold vis. replace (Z.to_nat (iw - x)) with 0%nat by lia. reflexivity. Qed.
+Lemma vis_nil iw x : vis iw x [] = [].
+Proof. unfold vis. apply firstn_nil. Qed.
+Lemma vis_app iw x l1 l2 : vis iw x (l1 ++ l2) = vis iw x l1 ++ vis iw (x + zlen l1) l2.
+Proof. unfold vis. rewrite firstn_app. f_equal. f_equal. unfold zlen. lia. Qed.
+Lemma vis_all iw x l : x + zlen l <= iw -> vis iw x l = l.
+Proof. intros H. unfold vis. apply firstn_all2. unfold zlen in H. lia. Qed.
+
+(* painting n equal values over the cells of a row segment (the run token) *)
+Theorem put_run8_paints n : forall a seg b x y w iw width pw v,
+  length seg = length (vis iw x (repeat v n)) -> (x < iw -> zlen a = y * width + x + pw) -> x + Z.of_nat n <= w ->
+  put_run8 n (a ++ seg ++ b) x y w iw width pw v = Ok (a ++ vis iw x (repeat v n) ++ b, x + Z.of_nat n).
 Proof.
-  induction n as [|n IH]; intros a seg b x y w width pw v Hl Ha Hx.
-  - destruct seg; [|discriminate]. cbn [put_run8 repeat app]. rewrite Z.add_0_r. reflexivity.
-  - destruct seg as [|s seg]; [discriminate|]. cbn [put_run8].
-    destruct (Z.geb_spec x w); [lia|].
-    cbn [app]. rewrite set_idx_app by lia. cbn [bind].
-    replace (a ++ v :: seg ++ b) with ((a ++ [v]) ++ seg ++ b) by (rewrite <- app_assoc; reflexivity).
-    rewrite IH; [| cbn in Hl; lia | rewrite zlen_app; change (zlen [v]) with 1; lia | lia].
-    cbn [repeat]. rewrite <- app_assoc. cbn [app]. f_equal. f_equal. lia.
+  induction n as [|n IH]; intros a seg b x y w iw width pw v Hl Ha Hx.
+  - cbn [repeat] in *. rewrite vis_nil in *. destruct seg; [|discriminate]. cbn [put_run8 app]. rewrite Z.add_0_r. reflexivity.
+  - cbn [put_run8 repeat] in *. destruct (Z.geb_spec x w); [lia|].
+    destruct (Z.ltb_spec x iw) as [Hin|Hout].
+    + rewrite vis_cons_in in * by assumption. destruct seg as [|s seg]; [discriminate|].
+      cbn [app]. rewrite set_idx_app by (rewrite (Ha Hin); reflexivity). cbn [bind].
+      replace (a ++ v :: seg ++ b) with ((a ++ [v]) ++ seg ++ b) by (rewrite <- app_assoc; reflexivity).
+      rewrite IH; [| cbn in Hl; lia | intros _; rewrite zlen_app, (Ha Hin); change (zlen [v]) with 1; lia | lia].
+      rewrite <- app_assoc. cbn [app]. f_equal. f_equal. lia.
+    + rewrite vis_out in * by assumption. destruct seg; [|discriminate]. cbn [bind app].
+      pose proof (IH a [] b (x + 1) y w iw width pw v) as E. rewrite vis_out in E by lia. cbn [app length] in E.
+      rewrite E; [| reflexivity | intros; lia | lia]. f_equal. f_equal. lia.
 Qed.
 
-(* copying a literal of the encoded stream over any |l| cells (the literal token) *)
-Theorem put_lit8_paints l : forall fp fs a seg b x y w width pw,
-  length seg = length l -> zlen a = y * width + x + pw -> x + zlen l <= w ->
-  put_lit8 (length l) (fp ++ l ++ fs) (a ++ seg ++ b) x y w width pw (zlen fp)
-  = Ok (a ++ l ++ b, x + zlen l, zlen fp + zlen l).
+(* copying a literal of the encoded stream over the cells of a row segment (the literal token) *)
+Theorem put_lit8_paints l : forall fp fs a seg b x y w iw width pw,
+  length seg = length (vis iw x l) -> (x < iw -> zlen a = y * width + x + pw) -> x + zlen l <= w ->
+  put_lit8 (length l) (fp ++ l ++ fs) (a ++ seg ++ b) x y w iw width pw (zlen fp)
+  = Ok (a ++ vis iw x l ++ b, x + zlen l, zlen fp + zlen l).
 Proof.
-  induction l as [|c l IH]; intros fp fs a seg b x y w width pw Hl Ha Hx.
-  - destruct seg; [|discriminate]. cbn [put_lit8 length app]. change (zlen (@nil byte)) with 0. rewrite !Z.add_0_r. reflexivity.
-  - destruct seg as [|s seg]; [discriminate|]. cbn [put_lit8 length]. rewrite zlen_cons in *. pose proof (zlen_nonneg l).
+  induction l as [|c l IH]; intros fp fs a seg b x y w iw width pw Hl Ha Hx.
+  - rewrite vis_nil in *. destruct seg; [|discriminate]. cbn [put_lit8 length app]. change (zlen (@nil byte)) with 0. rewrite !Z.add_0_r. reflexivity.
+  - cbn [put_lit8 length]. rewrite zlen_cons in *. pose proof (zlen_nonneg l).
     destruct (Z.geb_spec x w); [lia|].
-    assert (Eg : get_idx (fp ++ (c :: l) ++ fs) (zlen fp) = Ok c).
-    { unfold get_idx. cbn [app]. rewrite index_app_at by reflexivity. reflexivity. }
-    rewrite Eg. cbn [bind app]. rewrite set_idx_app by lia. cbn [bind].
     pose proof (zlen_nonneg fs).
-    destruct (Z.gtb_spec (zlen fp + 1) (zlen (fp ++ c :: l ++ fs))) as [Hgt|_].
-    { rewrite zlen_app, zlen_cons, zlen_app in Hgt. lia. }
-    replace (fp ++ c :: l ++ fs) with ((fp ++ [c]) ++ l ++ fs) by (rewrite <- app_assoc; reflexivity).
-    replace (a ++ c :: seg ++ b) with ((a ++ [c]) ++ seg ++ b) by (rewrite <- app_assoc; reflexivity).
-    replace (zlen fp + 1) with (zlen (fp ++ [c])) by (rewrite zlen_app; reflexivity).
-    rewrite IH; [| cbn in Hl; lia | rewrite zlen_app; change (zlen [c]) with 1; lia | lia].
-    repeat rewrite <- app_assoc. cbn [app]. rewrite zlen_app. change (zlen [c]) with 1.
-    f_equal. f_equal; [f_equal|]; lia.
+    assert (Hgt : (zlen fp + 1 >? zlen (fp ++ (c :: l) ++ fs)) = false).
+    { destruct (Z.gtb_spec (zlen fp + 1) (zlen (fp ++ (c :: l) ++ fs))) as [Hgt|_]; [|reflexivity].
+      rewrite zlen_app in Hgt. cbn [app] in Hgt. rewrite zlen_cons, zlen_app in Hgt. lia. }
+    destruct (Z.ltb_spec x iw) as [Hin|Hout].
+    + rewrite vis_cons_in in * by assumption. destruct seg as [|s seg]; [discriminate|].
+      assert (Eg : get_idx (fp ++ (c :: l) ++ fs) (zlen fp) = Ok c).
+      { unfold get_idx. cbn [app]. rewrite index_app_at by reflexivity. reflexivity. }
+      rewrite Eg. cbn [bind app]. rewrite set_idx_app by (rewrite (Ha Hin); reflexivity). cbn [bind].
+      cbn [app] in Hgt. rewrite Hgt.
+      replace (fp ++ c :: l ++ fs) with ((fp ++ [c]) ++ l ++ fs) by (rewrite <- app_assoc; reflexivity).
+      replace (a ++ c :: seg ++ b) with ((a ++ [c]) ++ seg ++ b) by (rewrite <- app_assoc; reflexivity).
+      replace (zlen fp + 1) with (zlen (fp ++ [c])) by (rewrite zlen_app; reflexivity).
+      rewrite IH; [| cbn in Hl; lia | intros _; rewrite zlen_app, (Ha Hin); change (zlen [c]) with 1; lia | lia].
+      repeat rewrite <- app_assoc. cbn [app]. rewrite zlen_app. change (zlen [c]) with 1.
+      f_equal. f_equal; [f_equal|]; lia.
+    + rewrite vis_out in * by assumption. destruct seg; [|discriminate]. cbn [bind app].
+      cbn [app] in Hgt. rewrite Hgt.
+      replace (fp ++ c :: l ++ fs) with ((fp ++ [c]) ++ l ++ fs) by (rewrite <- app_assoc; reflexivity).
+      replace (zlen fp + 1) with (zlen (fp ++ [c])) by (rewrite zlen_app; reflexivity).
+      pose proof (IH (fp ++ [c]) fs a [] b (x + 1) y w iw width pw) as E. rewrite vis_out in E by lia. cbn [app length] in E.
+      rewrite E; [| reflexivity | intros; lia | lia].
+      rewrite zlen_app. change (zlen [c]) with 1. f_equal. f_equal; [f_equal|]; lia.
 Qed.
 
 (* ---------- header fields a BMP reader looks at ---------- *)
@@ -129,18 +158,18 @@ Lemma zlen_repeat {A} (v : A) n : zlen (repeat v n) = Z.of_nat n.
 Proof. unfold zlen. rewrite repeat_length. reflexivity. Qed.
 
 Section Row8.
-Variables (w width pw : Z).
+Variables (w iw width pw : Z).
 
-(* one token, started inside a row that it does not overrun *)
+(* one token, started inside a stored row that it does not overrun *)
 Lemma token_step t fuel fp fs a seg b x y :
-  wf_tok t -> length seg = length (dec_tok t) -> zlen a = y * width + x + pw ->
+  wf_tok t -> length seg = length (vis iw x (dec_tok t)) -> (x < iw -> zlen a = y * width + x + pw) ->
   x + zlen (dec_tok t) <= w -> 0 <= y ->
-  loop8 (S fuel) (fp ++ enc_tok t ++ fs) (Build_st (a ++ seg ++ b) x y (zlen fp)) w width pw =
-  let s' := Build_st (a ++ dec_tok t ++ b) in
+  loop8 (S fuel) (fp ++ enc_tok t ++ fs) (Build_st (a ++ seg ++ b) x y (zlen fp)) w iw width pw =
+  let s' := Build_st (a ++ vis iw x (dec_tok t) ++ b) in
   let x' := x + zlen (dec_tok t) in
   let idx' := zlen fp + zlen (enc_tok t) in
-  if x' >=? w then (if y - 1 <? 0 then Ok (s' 0 (y - 1) idx') else loop8 fuel (fp ++ enc_tok t ++ fs) (s' 0 (y - 1) idx') w width pw)
-  else loop8 fuel (fp ++ enc_tok t ++ fs) (s' x' y idx') w width pw.
+  if x' >=? w then (if y - 1 <? 0 then Ok (s' 0 (y - 1) idx') else loop8 fuel (fp ++ enc_tok t ++ fs) (s' 0 (y - 1) idx') w iw width pw)
+  else loop8 fuel (fp ++ enc_tok t ++ fs) (s' x' y idx') w iw width pw.
 Proof.
   intros Hwf Hseg Ha Hx Hy. cbn [loop8 s_idx s_y s_x s_data].
   pose proof (zlen_nonneg fp). pose proof (zlen_nonneg fs).
@@ -183,36 +212,37 @@ Proof.
       rewrite index_app_at by (rewrite zlen_app; reflexivity). reflexivity. }
     rewrite Eg2. cbn [bind].
     replace (Z.to_nat (257 - (257 - Z.of_nat n))) with n by lia.
-    rewrite repeat_length in Hseg. rewrite zlen_repeat in Hx.
+    rewrite zlen_repeat in Hx.
     rewrite put_run8_paints by assumption. cbn [bind].
     rewrite zlen_repeat. change (zlen [byte_of_Z (257 - Z.of_nat n); v]) with 2.
     reflexivity.
 Qed.
 
-(* a whole stored row, cut into tokens in any way, started at x = x0 and ending exactly at w *)
+(* a whole stored row, cut into tokens in any way, started at x and ending exactly at w *)
 Lemma row_tokens ts : forall fuel fp fs a seg b x y,
-  ts <> [] -> Forall wf_tok ts -> length seg = length (dec_toks ts) -> zlen a = y * width + x + pw ->
+  ts <> [] -> Forall wf_tok ts -> length seg = length (vis iw x (dec_toks ts)) -> (x < iw -> zlen a = y * width + x + pw) ->
   x + zlen (dec_toks ts) = w -> 0 <= y ->
-  loop8 (length ts + fuel) (fp ++ enc_toks ts ++ fs) (Build_st (a ++ seg ++ b) x y (zlen fp)) w width pw =
-  let s' := Build_st (a ++ dec_toks ts ++ b) 0 (y - 1) (zlen fp + zlen (enc_toks ts)) in
-  if y - 1 <? 0 then Ok s' else loop8 fuel (fp ++ enc_toks ts ++ fs) s' w width pw.
+  loop8 (length ts + fuel) (fp ++ enc_toks ts ++ fs) (Build_st (a ++ seg ++ b) x y (zlen fp)) w iw width pw =
+  let s' := Build_st (a ++ vis iw x (dec_toks ts) ++ b) 0 (y - 1) (zlen fp + zlen (enc_toks ts)) in
+  if y - 1 <? 0 then Ok s' else loop8 fuel (fp ++ enc_toks ts ++ fs) s' w iw width pw.
 Proof.
   induction ts as [|t ts IH]; intros fuel fp fs a seg b x y Hne Hwf Hseg Ha Hx Hy; [congruence|].
   pose proof (Forall_inv Hwf) as Ht. pose proof (Forall_inv_tail Hwf) as Hts.
   unfold enc_toks, dec_toks in *. cbn [map concat] in *. fold (enc_toks ts) in *. fold (dec_toks ts) in *.
-  rewrite app_length in Hseg. rewrite zlen_app in Hx.
+  rewrite vis_app in *. rewrite app_length in Hseg. rewrite zlen_app in Hx.
   pose proof (dec_tok_pos t Ht) as Hpos. pose proof (zlen_nonneg (dec_toks ts)) as Hnn.
-  set (seg1 := firstn (length (dec_tok t)) seg). set (seg2 := skipn (length (dec_tok t)) seg).
+  set (n1 := length (vis iw x (dec_tok t))) in *.
+  set (seg1 := firstn n1 seg). set (seg2 := skipn n1 seg).
   assert (Hs : seg = seg1 ++ seg2) by (symmetry; apply firstn_skipn).
-  assert (Hl1 : length seg1 = length (dec_tok t)) by (unfold seg1; rewrite firstn_length; lia).
-  assert (Hl2 : length seg2 = length (dec_toks ts)) by (unfold seg2; rewrite skipn_length; lia).
+  assert (Hl1 : length seg1 = n1) by (unfold seg1; rewrite firstn_length; lia).
+  assert (Hl2 : length seg2 = length (vis iw (x + zlen (dec_tok t)) (dec_toks ts))) by (unfold seg2; rewrite skipn_length; lia).
   cbn [length Nat.add].
   replace (fp ++ (enc_tok t ++ enc_toks ts) ++ fs) with (fp ++ enc_tok t ++ (enc_toks ts ++ fs)) by (repeat rewrite <- app_assoc; reflexivity).
   rewrite Hs. replace (a ++ (seg1 ++ seg2) ++ b) with (a ++ seg1 ++ (seg2 ++ b)) by (repeat rewrite <- app_assoc; reflexivity).
   rewrite token_step; try assumption; [|lia]. cbv zeta.
   destruct ts as [|t2 ts'].
   - (* last token of the row *)
-    change (dec_toks []) with (@nil byte) in *. change (zlen (@nil byte)) with 0 in Hx.
+    change (dec_toks []) with (@nil byte) in *. change (zlen (@nil byte)) with 0 in Hx. rewrite vis_nil in *.
     destruct seg2; [|discriminate]. cbn [app].
     destruct (Z.geb_spec (x + zlen (dec_tok t)) w); [|lia].
     change (enc_toks []) with (@nil byte). rewrite !app_nil_r. cbn [length Nat.add].
@@ -223,10 +253,11 @@ Proof.
     destruct (Z.geb_spec (x + zlen (dec_tok t)) w); [lia|].
     replace (fp ++ enc_tok t ++ enc_toks (t2 :: ts') ++ fs) with ((fp ++ enc_tok t) ++ enc_toks (t2 :: ts') ++ fs)
       by (repeat rewrite <- app_assoc; reflexivity).
-    replace (a ++ dec_tok t ++ seg2 ++ b) with ((a ++ dec_tok t) ++ seg2 ++ b) by (repeat rewrite <- app_assoc; reflexivity).
+    replace (a ++ vis iw x (dec_tok t) ++ seg2 ++ b) with ((a ++ vis iw x (dec_tok t)) ++ seg2 ++ b) by (repeat rewrite <- app_assoc; reflexivity).
     replace (zlen fp + zlen (enc_tok t)) with (zlen (fp ++ enc_tok t)) by (rewrite zlen_app; reflexivity).
-    rewrite (IH fuel (fp ++ enc_tok t) fs (a ++ dec_tok t) seg2 b (x + zlen (dec_tok t)) y); try assumption;
-      [| discriminate | rewrite zlen_app; lia | lia].
+    rewrite (IH fuel (fp ++ enc_tok t) fs (a ++ vis iw x (dec_tok t)) seg2 b (x + zlen (dec_tok t)) y); try assumption;
+      [| discriminate | | lia].
+    2:{ intros Hin. rewrite zlen_app, (vis_all iw x (dec_tok t)) by lia. rewrite Ha by lia. lia. }
     cbv zeta. repeat rewrite <- app_assoc. rewrite !zlen_app.
     replace (zlen fp + zlen (enc_tok t) + zlen (enc_toks (t2 :: ts'))) with (zlen fp + (zlen (enc_tok t) + zlen (enc_toks (t2 :: ts')))) by lia.
     reflexivity.
@@ -245,21 +276,23 @@ Proof. intros. unfold zerosZ. rewrite Z2Nat.inj_add by lia. apply zeros_app. Qed
 Lemma zlen_zerosZ n : 0 <= n -> zlen (zerosZ n) = n.
 Proof. intros. unfold zerosZ. rewrite zlen_zeros. lia. Qed.
 
-(* the bytes of one BMP row: background, the stored row (pixels and, for odd widths, the pad byte), background *)
+(* the bytes of one BMP row: background, the pixels, background *)
 Definition canvas_row (pw W width : Z) (r : bytes) : bytes := zerosZ pw ++ r ++ zerosZ (width - pw - W).
+(* the canvas row of a stored 8-bit row: its first w bytes are the pixels (a pad byte may follow) *)
+Definition raw_canvas8 (pw w width : Z) (r : bytes) : bytes := canvas_row pw w width (firstn (Z.to_nat w) r).
 
 Definition wf_row (W : Z) (ts : list tok) : Prop := ts <> [] /\ Forall wf_tok ts /\ zlen (dec_toks ts) = W.
 Definition ntoks (rows : list (list tok)) : nat := length (concat rows).
 
-Lemma rows_image W width pw rows : forall fuel fp above y,
-  0 <= pw -> 0 < W -> pw + W <= width ->
+Lemma rows_image W iw width pw rows : forall fuel fp above y,
+  0 <= pw -> 0 < iw -> iw <= W -> pw + iw <= width ->
   Forall (wf_row W) rows -> y + 1 = zlen rows ->
   loop8 (ntoks rows + S fuel) (fp ++ concat (map enc_toks rows))
-        (Build_st (zerosZ (width * (y + 1)) ++ above) 0 y (zlen fp)) W width pw
-  = Ok (Build_st (concat (map (fun ts => canvas_row pw W width (dec_toks ts)) (rev rows)) ++ above) 0 (-1)
+        (Build_st (zerosZ (width * (y + 1)) ++ above) 0 y (zlen fp)) W iw width pw
+  = Ok (Build_st (concat (map (fun ts => raw_canvas8 pw iw width (dec_toks ts)) (rev rows)) ++ above) 0 (-1)
                  (zlen (fp ++ concat (map enc_toks rows)))).
 Proof.
-  induction rows as [|r rows IH]; intros fuel fp above y Hpw HW Hfit Hwf Hy.
+  induction rows as [|r rows IH]; intros fuel fp above y Hpw Hiw HW Hfit Hwf Hy.
   - change (zlen (@nil (list tok))) with 0 in Hy. assert (y = -1) by lia. subst y.
     replace (width * (-1 + 1)) with 0 by lia. change (zerosZ 0) with (@nil byte).
     cbn [ntoks concat length map rev app Nat.add loop8 s_idx s_y]. rewrite app_nil_r.
@@ -268,36 +301,37 @@ Proof.
     rewrite zlen_cons in Hy. pose proof (zlen_nonneg rows) as Hrn. assert (Hy0 : 0 <= y) by lia.
     unfold ntoks. cbn [concat map]. rewrite app_length. fold (ntoks rows).
     replace (length r + ntoks rows + S fuel)%nat with (length r + (ntoks rows + S fuel))%nat by lia.
-    (* split the unpainted area: rows below, left margin, the row, right margin *)
-    assert (Hsplit : zerosZ (width * (y + 1)) = (zerosZ (width * y) ++ zerosZ pw) ++ zerosZ W ++ zerosZ (width - pw - W)).
-    { replace (width * (y + 1)) with (width * y + (pw + (W + (width - pw - W)))) by lia.
+    (* split the unpainted area: rows below, left margin, the pixels of the row, right margin *)
+    assert (Hsplit : zerosZ (width * (y + 1)) = (zerosZ (width * y) ++ zerosZ pw) ++ zerosZ iw ++ zerosZ (width - pw - iw)).
+    { replace (width * (y + 1)) with (width * y + (pw + (iw + (width - pw - iw)))) by lia.
       rewrite zerosZ_add by nia. rewrite zerosZ_add by lia. rewrite zerosZ_add by lia.
       repeat rewrite <- app_assoc. reflexivity. }
     rewrite Hsplit.
-    replace (((zerosZ (width * y) ++ zerosZ pw) ++ zerosZ W ++ zerosZ (width - pw - W)) ++ above)
-      with ((zerosZ (width * y) ++ zerosZ pw) ++ zerosZ W ++ (zerosZ (width - pw - W) ++ above))
+    replace (((zerosZ (width * y) ++ zerosZ pw) ++ zerosZ iw ++ zerosZ (width - pw - iw)) ++ above)
+      with ((zerosZ (width * y) ++ zerosZ pw) ++ zerosZ iw ++ (zerosZ (width - pw - iw) ++ above))
       by (repeat rewrite <- app_assoc; reflexivity).
-    rewrite (row_tokens W width pw r (ntoks rows + S fuel) fp (concat (map enc_toks rows))); try assumption.
-    2:{ unfold zerosZ, zeros. rewrite repeat_length. unfold zlen in Hlen. lia. }
-    2:{ rewrite zlen_app, !zlen_zerosZ by nia. lia. }
-    cbv zeta.
+    assert (Hvis : vis iw 0 (dec_toks r) = firstn (Z.to_nat iw) (dec_toks r)) by (unfold vis; rewrite Z.sub_0_r; reflexivity).
+    rewrite (row_tokens W iw width pw r (ntoks rows + S fuel) fp (concat (map enc_toks rows))); try assumption.
+    2:{ rewrite Hvis. unfold zerosZ, zeros. rewrite repeat_length, firstn_length. unfold zlen in Hlen. lia. }
+    2:{ intros _. rewrite zlen_app, !zlen_zerosZ by nia. lia. }
+    cbv zeta. rewrite Hvis.
     destruct rows as [|r2 rows'].
     + (* that was the bottom row *)
       change (zlen (@nil (list tok))) with 0 in Hy. assert (y = 0) by lia. subst y.
       cbn [Z.sub Z.ltb Z.compare Z.add Z.opp Z.pos_sub]. cbn [rev map concat app].
       f_equal. f_equal.
       * replace (width * 0) with 0 by lia. change (zerosZ 0) with (@nil byte). cbn [app].
-        unfold canvas_row. repeat rewrite <- app_assoc. reflexivity.
+        unfold raw_canvas8, canvas_row. repeat rewrite <- app_assoc. reflexivity.
       * rewrite app_nil_r, zlen_app. reflexivity.
     + assert (Hy1 : 1 <= y) by (rewrite zlen_cons in Hy; pose proof (zlen_nonneg rows'); lia).
       destruct (Z.ltb_spec (y - 1) 0); [lia|].
       replace (fp ++ enc_toks r ++ concat (map enc_toks (r2 :: rows'))) with ((fp ++ enc_toks r) ++ concat (map enc_toks (r2 :: rows')))
         by (rewrite <- app_assoc; reflexivity).
       replace (zlen fp + zlen (enc_toks r)) with (zlen (fp ++ enc_toks r)) by (rewrite zlen_app; reflexivity).
-      replace ((zerosZ (width * y) ++ zerosZ pw) ++ dec_toks r ++ zerosZ (width - pw - W) ++ above)
-        with (zerosZ (width * (y - 1 + 1)) ++ (canvas_row pw W width (dec_toks r) ++ above)).
-      2:{ replace (y - 1 + 1) with y by lia. unfold canvas_row. repeat rewrite <- app_assoc. reflexivity. }
-      rewrite (IH fuel (fp ++ enc_toks r) (canvas_row pw W width (dec_toks r) ++ above) (y - 1)); try assumption; [|lia].
+      replace ((zerosZ (width * y) ++ zerosZ pw) ++ firstn (Z.to_nat iw) (dec_toks r) ++ zerosZ (width - pw - iw) ++ above)
+        with (zerosZ (width * (y - 1 + 1)) ++ (raw_canvas8 pw iw width (dec_toks r) ++ above)).
+      2:{ replace (y - 1 + 1) with y by lia. unfold raw_canvas8, canvas_row. repeat rewrite <- app_assoc. reflexivity. }
+      rewrite (IH fuel (fp ++ enc_toks r) (raw_canvas8 pw iw width (dec_toks r) ++ above) (y - 1)); try assumption; [|lia].
       f_equal. f_equal. cbn [rev]. rewrite !map_app, !concat_app. cbn [map concat]. rewrite app_nil_r.
       repeat rewrite <- app_assoc. reflexivity.
 Qed.
@@ -310,57 +344,64 @@ Proof.
   destruct t as [l|n v]; cbn [enc_tok length wf_tok] in *; lia.
 Qed.
 
-(* the decoder's pixel array for a compressed 8-bit image: every valid scan-line PackBits encoding (every
-   segmentation of every row into literals and runs) of rows of W = image width rounded up to even bytes,
-   placed at (w_padding, h_padding); condition: the stored row fits the BMP stride (no pad-byte leak) *)
+(* bytes the decoder appends to the pixel array when the stored row (with its pad byte) is wider than the BMP stride
+   (pinned by the fixtures of tests/test_cast.py; outside the area a reader looks at) *)
+Definition extra8 (bw bh pw : Z) : Z :=
+  let w := bw - pw in if w + w mod 2 + pw >? stride4 bw then 4 * bh else 0.
+
+(* The decoder's pixel array for a compressed 8-bit image: every valid scan-line PackBits encoding (every segmentation
+   of every row into literals and runs) of rows of W = image width rounded up to even bytes: the first w bytes of
+   every decoded row at (w_padding, h_padding), background elsewhere - the pad byte is not painted.  No geometry
+   condition (since the repair of C06-8bit-pad-leak). *)
 Theorem compressed8_pixels bw bh pw ph rows :
   let w := bw - pw in let W := w + w mod 2 in let width := stride4 bw in
   0 <= pw -> 0 < w -> 0 <= ph -> zlen rows = bh - ph ->
-  pw + W <= width ->
   Forall (wf_row W) rows ->
   decode_compressed8 (concat (map enc_toks rows)) bw bh pw ph width
-  = Ok (concat (map (fun ts => canvas_row pw W width (dec_toks ts)) (rev rows)) ++ zerosZ (width * ph)).
+  = Ok (concat (map (fun ts => raw_canvas8 pw w width (dec_toks ts)) (rev rows)) ++ zerosZ (width * ph) ++ zerosZ (extra8 bw bh pw)).
 Proof.
-  intros w W width Hpw Hw Hph Hrows Hfit Hwf. unfold decode_compressed8. fold w. fold W.
-  destruct (Z.gtb_spec (W + pw) width); [lia|].
-  assert (Hwidth : 0 <= width) by (unfold width; pose proof (stride4_spec bw ltac:(lia)); lia).
+  intros w W width Hpw Hw Hph Hrows Hwf. unfold decode_compressed8. fold w. fold W.
+  pose proof (stride4_spec bw ltac:(lia)) as [_ Hst]. fold width in Hst.
+  assert (HW : w <= W <= w + 1) by (unfold W; pose proof (Z.mod_pos_bound w 2 ltac:(lia)); lia).
   pose proof (zlen_nonneg rows) as Hrn.
-  unfold bytearray. destruct (Z.ltb_spec (width * bh) 0); [nia|]. cbn [bind].
-  assert (HW : 0 < W) by (unfold W; pose proof (Z.mod_pos_bound w 2 ltac:(lia)); lia).
-  replace (zeros (Z.to_nat (width * bh))) with (zerosZ (width * (bh - 1 - ph + 1)) ++ zerosZ (width * ph)).
-  2:{ rewrite <- zerosZ_add by nia. unfold zerosZ. f_equal. f_equal. lia. }
+  set (bwid := if W + pw >? width then width + 4 else width).
+  assert (Hb : bwid * bh = width * bh + extra8 bw bh pw).
+  { unfold bwid, extra8. fold w. fold W. fold width. destruct (Z.gtb_spec (W + pw) width); lia. }
+  assert (He : 0 <= extra8 bw bh pw) by (unfold extra8; destruct (_ >? _); lia).
+  unfold bytearray. destruct (Z.ltb_spec (bwid * bh) 0); [nia|]. cbn [bind].
+  replace (zeros (Z.to_nat (bwid * bh))) with (zerosZ (width * (bh - 1 - ph + 1)) ++ (zerosZ (width * ph) ++ zerosZ (extra8 bw bh pw))).
+  2:{ rewrite <- !zerosZ_add by nia. unfold zerosZ. f_equal. f_equal. lia. }
   assert (Hall : Forall (Forall wf_tok) rows) by (eapply Forall_impl; [|exact Hwf]; intros r (_ & Hr & _); exact Hr).
   pose proof (ntoks_le rows Hall) as Hn.
   replace (S (length (concat (map enc_toks rows)))) with (ntoks rows + S (length (concat (map enc_toks rows)) - ntoks rows))%nat by lia.
   replace (concat (map enc_toks rows)) with ([] ++ concat (map enc_toks rows)) at 2 by reflexivity.
   change 0 with (zlen (@nil byte)) at 2.
-  rewrite (rows_image W width pw rows); try assumption; [|lia].
+  rewrite (rows_image W w width pw rows); try assumption; try lia.
   reflexivity.
 Qed.
 
 (* two valid encodings of the same stored rows give the same pixel array *)
 Theorem compressed8_encoding_independent bw bh pw ph rows1 rows2 :
   let w := bw - pw in let W := w + w mod 2 in let width := stride4 bw in
-  0 <= pw -> 0 < w -> 0 <= ph -> zlen rows1 = bh - ph -> zlen rows2 = bh - ph -> pw + W <= width ->
+  0 <= pw -> 0 < w -> 0 <= ph -> zlen rows1 = bh - ph -> zlen rows2 = bh - ph ->
   Forall (wf_row W) rows1 -> Forall (wf_row W) rows2 ->
   map dec_toks rows1 = map dec_toks rows2 ->
   decode_compressed8 (concat (map enc_toks rows1)) bw bh pw ph width
   = decode_compressed8 (concat (map enc_toks rows2)) bw bh pw ph width.
 Proof.
-  intros w W width H1 H2 H3 H4 H5 H6 H7 H8 Heq. subst w W width.
+  intros w W width H1 H2 H3 H4 H5 H7 H8 Heq. subst w W width.
   rewrite (compressed8_pixels bw bh pw ph rows1), (compressed8_pixels bw bh pw ph rows2) by assumption.
   f_equal. f_equal.
-  assert (E : forall rows, map (fun ts => canvas_row pw (bw - pw + (bw - pw) mod 2) (stride4 bw) (dec_toks ts)) (rev rows)
-                         = map (canvas_row pw (bw - pw + (bw - pw) mod 2) (stride4 bw)) (rev (map dec_toks rows))).
+  assert (E : forall rows, map (fun ts => raw_canvas8 pw (bw - pw) (stride4 bw) (dec_toks ts)) (rev rows)
+                         = map (raw_canvas8 pw (bw - pw) (stride4 bw)) (rev (map dec_toks rows))).
   { intros rows. rewrite <- map_rev, map_map. reflexivity. }
   rewrite !E, Heq. reflexivity.
 Qed.
 
-(* the stated geometry condition is needed: with canvas width 4, w_padding 1 (image width 3, stored rows of 4
-   bytes) the pad byte 0x55 of the lower row lands on canvas column 0 of the row above *)
+(* the geometry in which the pad byte used to leak (canvas width 4, w_padding 1: image width 3, stored rows of 4
+   bytes): the pad byte 0x55 of the lower row is no longer painted on column 0 of the row above *)
 Definition leak_rows : list (list tok) := [[TLit [x01; x02; x03; x00]]; [TLit [x04; x05; x06; x55]]].
-Theorem compressed8_leak_witness :
+Theorem compressed8_former_leak :
   exists data, decode_compressed8 (concat (map enc_toks leak_rows)) 4 2 1 0 (stride4 4) = Ok data /\
-               nth 4 data x00 = x55 /\          (* BMP row 1 (the upper row), column 0: background expected *)
-               firstn 8 data <> canvas_row 1 3 4 [x04; x05; x06] ++ canvas_row 1 3 4 [x01; x02; x03].
-Proof. eexists. split; [vm_compute; reflexivity|]. split; [reflexivity|]. vm_compute. discriminate. Qed.
+               firstn 8 data = canvas_row 1 3 4 [x04; x05; x06] ++ canvas_row 1 3 4 [x01; x02; x03].
+Proof. eexists. split; [vm_compute; reflexivity|]. reflexivity. Qed.
